@@ -513,6 +513,10 @@ def oracle_podstr(cases, impl, props):
                 if op[0] != 'loadshort':
                     out.append(Finding('oracle', c, a['i'], 'podstr: op "%s" panicked' % c.ops[a['i']]))
                 break
+            if op[0] == 'default':
+                val = bytes(n)
+                if 'b' in a and unhex(a['b']) != val:
+                    bad = 'podstr: the Default value holds %s, expected the empty string (all zero bytes)' % a['b']
             if op[0] in ('from', 'fromstring', 'copy', 'copysl'):
                 src = unhex(op[1])
                 val = src[:n] + bytes(n - min(n, len(src)))
